@@ -25,7 +25,7 @@ claimed = {
  'C09': "safety: one liquidation decision of the second generation for an arbitrary vault / borrow from an arbitrary pre-state (seized only on the unsafe side of the applicable ratio / threshold, ratio taken over collateral vs principal + interest + closing fee, an unsafe vault is seized or the step fails, exactly the recorded collateral moves, one locked vault); liveness: sweep window functions of both generations (valid sub-range, never wider than the batch, progress), the real second-generation vault and borrow sweeps (window visited completely, continues after a failing item, own next offset stored). Not covered: first-generation (x/liquidation) decisions, auction start",
  'C16': "map-iteration-order independence (2-safety by self-composition: insertion order vs reverse order, all orders for two entries) of amm.DistributeOrderAmountToOrders; the other map ranges named in the property and process-level replay are not covered",
  'C10': "second-generation Dutch auction: one bid from an arbitrary running auction (closed world; pays <= target, receives <= collateral, partial-bid bookkeeping, closing bid empties the auction), conversion lemma (posted price + one unit, monotone), price function falling, restart starts a fresh price line; first-generation lend Dutch auction: one bid pays the counted debt coins and receives the collateral sold plus the bonus on exactly that amount (conversions stubbed)",
- 'C11': "limit bids (deposit/cancel/withdraw with arbitrary denomination and amount in the message), the end-blocker's automatic fill of a resting limit bid, and one second-generation English bid from an arbitrary auction state",
+ 'C11': "limit bids (deposit/cancel/withdraw with arbitrary denomination and amount in the message), the end-blocker's automatic fill of a resting limit bid, one second-generation English bid and one first-generation surplus bid and debt bid, each from an arbitrary running auction state; the end of a first-generation surplus auction (lot to exactly the standing bidder, or bid returned under shutdown)",
  'C12': "vault, locker, lend/borrow messages and MsgCancelOrder that name a position succeed only for the owner; MsgKillSwitch only for a configured admin; the 20 custom contract-to-chain handlers refuse, on the main and test networks, a sender that is none of the network's governance contracts before the privileged action is reached",
  'C13': "locker books per message, collector net-fee booking for every fee-generating vault message, for the second-generation Dutch close and for the savings paid to lockers on a saving-rate change",
  'C14': "vault and locker messages x circuit breaker / emergency shutdown / cool-off; lend/borrow messages that open, enlarge or draw x circuit breaker; second-generation vault liquidation refuses under shutdown or breaker; first-generation surplus / debt auction activators start nothing under breaker or shutdown. Not covered: lend, second-generation auctions, liquidity",
